@@ -1,6 +1,6 @@
 """Builds a scratch copy of /repo/jaxtyping with a bundle of HARMLESS edits (renamed locals, an inverted-but-equivalent
 condition, an extracted helper, changed message text, `if/else` merged into an early write, `dict(x)` for `x.copy()`, a split
-`or`) and prints the directory. Every check must still exit 0 on it:   ./check Cxx --repo <dir>   (VERIF_OUT=<scratch>).
+`or`, locals introduced in the loader's get_code / source_to_code, renamed loop variables in the PyTree leaf loop) and prints the directory. Every check must still exit 0 on it:   ./check Cxx --repo <dir>   (VERIF_OUT=<scratch>).
 Used as a false-alarm regression (DESIGN 9.8)."""
 import os, shutil, sys
 dst = sys.argv[1] if len(sys.argv) > 1 else "/tmp/harm"
@@ -54,4 +54,36 @@ sub("jaxtyping/_import_hook.py", '''        for module in self.modules:
             if module_name.startswith(hooked + "."):
                 return True
         return False''')
+sub("jaxtyping/_import_hook.py", """        with patch(
+            "importlib._bootstrap_external.cache_from_source",
+            ft.partial(_optimized_cache_from_source, self._typechecker.get_hash()),
+        ):
+            return super().get_code(fullname)""", """        tag = self._typechecker.get_hash()
+        namer = ft.partial(_optimized_cache_from_source, tag)
+        with patch("importlib._bootstrap_external.cache_from_source", namer):
+            code = super().get_code(fullname)
+            return code""")
+sub("jaxtyping/_import_hook.py", """        tree = JaxtypingTransformer(typechecker=self._typechecker).visit(tree)
+        ast.fix_missing_locations(tree)
+        return _call_with_frames_removed(
+            compile, tree, path, "exec", dont_inherit=True, optimize=_optimize
+        )""", """        transformer = JaxtypingTransformer(typechecker=self._typechecker)
+        new_tree = transformer.visit(tree)
+        ast.fix_missing_locations(new_tree)
+        code = _call_with_frames_removed(
+            compile, new_tree, path, "exec", dont_inherit=True, optimize=_optimize
+        )
+        return code""")
+sub("jaxtyping/_pytree_type.py", """            for leaf_index, leaf in enumerate(leaves):
+                if cls.structure is not None:
+                    set_treepath_memo(leaf_index, cls.structure)
+                if not is_check_leaftype(leaf):
+                    return False
+                clear_treepath_memo()""", """            for position, item in enumerate(leaves):
+                if cls.structure is not None:
+                    set_treepath_memo(position, cls.structure)
+                ok = is_check_leaftype(item)
+                if not ok:
+                    return False
+                clear_treepath_memo()""")
 print(dst)
